@@ -425,7 +425,9 @@ def evaluate_one(k, setup, expr):
     try:
         for s in setup:
             k(s)
-        return ('ok', nested(k(expr)))
+        r = k(expr)
+        kinds = sorted({type(e).__name__ for e in (r if isinstance(r, list) else [r])})
+        return ('ok', nested(r), '+'.join(kinds))
     except RecursionError:
         return ('exc', 'RecursionError')
     except Exception as e:          # noqa: BLE001 - every failure class is an observation
@@ -448,8 +450,9 @@ def classify(fam, env, tree, form, backend, out):
     if backend == 'torch' and fam == 'mgrad' and out == ('exc', 'RuntimeError') and \
             params_used(tree) != {nm for nm, _ in env}:
         return 'torch-multi-grad-unused-parameter-raises'
-    if backend == 'torch' and fam in ('jac', 'mjac') and out[0] == 'ok':
-        # compute_jacobian failed, jacobian_of_fn silently fell back to numeric_jacobian in single precision
+    if backend == 'torch' and fam in ('jac', 'mjac') and out[0] == 'ok' and 'ndarray' in out[2]:
+        # compute_jacobian failed, jacobian_of_fn silently fell back to numeric_jacobian (which answers with an ndarray)
+        # although the function is evaluated in single precision
         return 'torch-jacobian-silent-numeric-fallback'
     if out[0] == 'exc':
         return '%s-%s-%s' % (backend, fam, out[1])
@@ -513,6 +516,29 @@ def run_item(item, out):
         out['trees_without_point'] += 1
         return
     text = fn_text(tree)
+    # The function itself first (double precision, numpy backend): the Klong text must denote at every point the function
+    # the reference differentiates.  Where the interpreter's own f(p) raises or has another value (a defect of a verb, not
+    # of the gradient operators) the point is left out and listed in the coverage.
+    kv = interp('numpy')
+    try:
+        kv('f::' + text)
+        kept = []
+        for p, e in pts:
+            args = [param_lit(ln, vals) for _, ln, vals in split_point(env, p)]
+            if fam in ('grad', 'jac'):
+                vo = evaluate_one(kv, [], 'f(' + args[0] + ')')
+            else:
+                vo = evaluate_one(kv, ['%s::%s' % (nm, a) for (nm, _), a in zip(env, args)], 'f()')
+            out['value_checks'] += 1
+            if vo[0] == 'ok' and agree(vo[1], e[2], 1e-9, 1e-12):
+                kept.append((p, e))
+            else:
+                out['function_differs'] += 1
+                out['value_mismatch'].append([env_id, text, fmt(list(p)),
+                                              ('exc:' + vo[1]) if vo[0] == 'exc' else 'ok:' + fmt(vo[1]), fmt(e[2])])
+        pts = kept
+    except Exception:       # noqa: BLE001 - the definition itself is judged per backend below
+        pass
     results = {}
     first_bad = {}
     nbad = {}
@@ -529,17 +555,6 @@ def run_item(item, out):
                                     snippet=None, group='%s-define-%s' % (backend, type(e).__name__)))
             continue
         for p, (scale, exp, fval) in pts:
-            if backend == 'numpy':
-                # rendering conformance: the Klong text denotes the function the reference evaluates
-                args = [param_lit(ln, vals) for _, ln, vals in split_point(env, p)]
-                if fam in ('grad', 'jac'):
-                    vo = evaluate_one(k, [], 'f(' + args[0] + ')')
-                else:
-                    vo = evaluate_one(k, ['%s::%s' % (nm, a) for (nm, _), a in zip(env, args)], 'f()')
-                out['value_checks'] += 1
-                if vo[0] != 'ok' or not agree(vo[1], fval, 1e-9, 1e-12):
-                    out['value_mismatch'].append([env_id, text, list(p), vo[0], vo[1] if vo[0] == 'exc' else fmt(vo[1]),
-                                                  fmt(fval)])
             sub = in_sub(p)
             for form in forms:
                 g = tag.get((form, backend))
@@ -624,7 +639,7 @@ def _agree_pair(a, b, rtol, atol):
 def new_out():
     return dict(trees=0, trees_without_point=0, points_outside_domain=0, points_in_domain=0, evaluations=0,
                 value_checks=0, value_mismatch=[], cross_backend_pairs=0, distinct_nontrivial=0, distinct_gradients=0,
-                viol=[], samples=[], timeouts=0, skipped_no_literal=0, excused_ill_conditioned=0)
+                viol=[], samples=[], timeouts=0, skipped_no_literal=0, excused_ill_conditioned=0, function_differs=0)
 
 
 def worker(items):
@@ -675,10 +690,11 @@ def run(cfg):
     # big environments first inside a chunk does not matter; chunks are small so that the fan-out balances
     for part in runner.pmap(worker, items, cfg, chunk=max(1, min(40, len(items) // (cfg.jobs * 12) or 1)), inline_below=-1):
         runner.merge_counts(total, part)
-    if total['value_mismatch']:
-        total['value_mismatch'].sort()
-        raise runner.HarnessError('Klong rendering of a tree does not denote the reference function (%d cases), first: %r'
-                                  % (len(total['value_mismatch']), total['value_mismatch'][0]))
+    total['value_mismatch'].sort()
+    if total['function_differs'] > 0.002 * max(1, total['value_checks']):
+        # a handful of points are expected (verb defects such as `[1 2]^-1`); more means the rendering is wrong
+        raise runner.HarnessError('Klong rendering of a tree does not denote the reference function (%d of %d points), '
+                                  'first: %r' % (total['function_differs'], total['value_checks'], total['value_mismatch'][0]))
     rep.extend_violations(sorted(total['viol'], key=lambda v: (v['key'], v['observed'])))
     fams = {}
     for it in items:
@@ -695,6 +711,8 @@ def run(cfg):
         distinct_gradients=total['distinct_gradients'], value_checks=total['value_checks'],
         cross_backend_pairs=total['cross_backend_pairs'], timeouts=total['timeouts'],
         skipped_no_literal=total['skipped_no_literal'], excused_ill_conditioned=total['excused_ill_conditioned'],
+        points_where_f_itself_differs=total['function_differs'],
+        points_where_f_itself_differs_examples=total['value_mismatch'][:10],
         plan=[[r[0], r[1], r[2], list(r[3]), {'G': 'GRID^n', 'S': 'SUB^n'}[r[4]], list(r[5])] + list(r[6:])
               for r in plan(cfg)],
         samples=sorted(total['samples'])[:12], oracle_selfcheck='passed')
@@ -712,6 +730,9 @@ def run(cfg):
         'difference with the documented step 1e-6 over the reference\'s own values + 2^-53*sensitivity(f)/h)); both bounds '
         'are computed from the reference only '
         '(excused_ill_conditioned counts these evaluations; exceptions are never excused).',
+        'A point at which the interpreter\'s own f(p) raises or differs from the reference value (a verb defect such as '
+        '`[1 2]^-1`, not a gradient defect; judged on the numpy backend in double precision) is left out: '
+        'points_where_f_itself_differs.',
         'The shape of a multi-parameter Jacobian block for a scalar parameter is not fixed by the statement: m and m x 1 '
         'are both accepted.',
         'The point of `p∇f` is a literal; a negative real scalar has none in that position (`-1.5∇f` is -(1.5∇f) and ∇ '
